@@ -30,7 +30,12 @@ def check(world, tier):
     an.ob(not missing, "window-api", "public Window methods missing: %s" % missing, nontrivial=False)
     if missing:
         return rep
-    fi = {n: prog.field_index(WINDOW, n) for n in ("elements", "size", "chunk_size", "file")}
+    wl = world.window_layout()
+    fi = {n: (tuple(wl[n]) if wl.get(n) is not None else None) for n in ("elements", "size", "chunk_size", "file", "eof")}
+    an.ob(all(fi[n] is not None for n in ("elements", "size", "chunk_size", "file")), "window-layout",
+          "cannot locate the queue, size, chunk size or file inside the Window value built by Window::new", nontrivial=False)
+    if any(fi[n] is None for n in ("elements", "size", "chunk_size", "file")):
+        return rep
     w = prog.adts[WINDOW]
     enc = rep.clause("C18.encapsulation", "fields are private; only Window's methods touch the queue and the file")
     for f in w["variants"][0]["fields"]:
@@ -60,15 +65,15 @@ def check(world, tier):
                 pure.ob(False, "lossy-cast in %s" % m, "Window::%s narrows the queue length to %s without a bound" % (m, wng[3]))
         if m == "new":
             for s in e.finals:
-                ln = e.read(s, ("L", e.entry_frame, 0), (fi["elements"], "$len"))
-                sz = e.read(s, ("L", e.entry_frame, 0), (fi["size"],))
+                ln = e.read(s, ("L", e.entry_frame, 0), fi["elements"] + ("$len",))
+                sz = e.read(s, ("L", e.entry_frame, 0), fi["size"])
                 inv.ob(ln[0] == "i" and sz[0] == "i" and s.ctx.entails(lin.le(ln[1], sz[1])), "new: invariant", "Window::new does not establish len <= size")
             continue
         t = prog.types[e.frame_bodies[e.entry_frame].local_ty(1)]
         mutable = t["k"] == "ref" and t.get("mut")
         for s in e.finals:
-            ln = e.read(s, self_root(e), (fi["elements"], "$len"))
-            sz = e.read(s, self_root(e), (fi["size"],))
+            ln = e.read(s, self_root(e), fi["elements"] + ("$len",))
+            sz = e.read(s, self_root(e), fi["size"])
             ok = ln[0] == "i" and sz[0] == "i" and s.ctx.entails(lin.le(ln[1], sz[1]))
             inv.ob(ok, "%s: invariant at exit" % m, "Window::%s can return with more than `size` elements buffered" % m,
                    sample={"method": m, "exit entails": "len(elements) <= size"})
@@ -84,6 +89,25 @@ def check(world, tier):
     f.need(len(g_eof), 1, "pushes monitored for end-of-file in fill")
     for o in g_eof:
         f.ob(o.proven, "push-after-short-chunk", o.residual, o.loc, sample={"monitor": "eof", "proven": o.proven})
+    # no piece is lost: whatever a successful read returned (also zero bytes: the empty final piece) is queued before fill can
+    # return Ok or read again
+    gq = graph_of(e)
+    reads_ = [x for x in e.events if not x.inlined and "std::io::Read" in base_name(x)]
+    pushn = set(x.node for x in e.events if base_name(x).startswith("std::collections::VecDeque::push"))
+    okret = set()
+    for (node, root, path, v) in e.writes_log:
+        if root == ("L", e.entry_frame, 0):
+            dv = v[1].get(("$discr",)) if isinstance(v, tuple) and v and v[0] == "agg" else (v if tuple(path) == ("$discr",) else None)
+            if dv is not None and dv[0] == "i" and dv[1] == (0, ()):
+                okret.add(node if node[0] == e.entry_frame else (e.entry_frame, node[0][len(e.entry_frame)][3]))
+    f.need(len(reads_), 1, "file read in fill")
+    for x in reads_:
+        # a failed read can only reach an Err return, so no outcome filter is needed
+        r_ = gq.reachable(list(gq.succ.get(x.node, ())), avoid_nodes=pushn)
+        lost = (r_ & okret) or (x.node in r_)
+        f.ob(not lost, "read-piece-not-queued", "fill can return Ok (or read again) after a successful read without queueing what was read: "
+             "a piece of the file - e.g. the empty final piece of a file whose size is a multiple of the chunk size - is lost", x.loc,
+             sample={"read at": x.loc, "every Ok path queues the piece": not lost})
     for s in e.finals:
         if ret_discr(e, s) != 0:
             continue
@@ -99,11 +123,11 @@ def check(world, tier):
     r = rep.clause("C18.remove", "remove(k): fails without effect when k > len; otherwise drains exactly the k oldest")
     e = runs["remove"]
     k = e.read(e.finals[0], ("L", e.entry_frame, 2), ()) if e.finals else None
-    len0 = lin.var(e.named(("len", self_root(e), (fi["elements"],)), None))
+    len0 = lin.var(e.named(("len", self_root(e), fi["elements"]), None))
     r.need(len([s for s in e.finals if ret_discr(e, s) == 0]), 1, "Ok return of remove")
     r.need(len([s for s in e.finals if ret_discr(e, s) == 1]), 1, "Err return of remove")
     for s in e.finals:
-        ln = e.read(s, self_root(e), (fi["elements"], "$len"))
+        ln = e.read(s, self_root(e), fi["elements"] + ("$len",))
         if ret_discr(e, s) == 1:
             r.ob(s.ctx.entails(lin.lt(len0, k[1])), "remove-err-when-enough", "remove(k) can fail although k <= len", sample={"Err": "k > len"})
             r.ob(ln[0] == "i" and s.ctx.entails_eq(ln[1], len0), "remove-err-has-effect", "a failing remove changes the queue")
@@ -112,7 +136,13 @@ def check(world, tier):
             r.ob(ln[0] == "i" and s.ctx.entails_eq(ln[1], lin.sub(len0, k[1])), "remove-wrong-count", "a successful remove(k) does not shorten the queue by exactly k",
                  sample={"Ok": "len' == len - k"})
     drs = [x for x in e.events if base_name(x) == "std::collections::VecDeque::drain"]
-    r.need(len(drs), 1, "drain in remove")
+    pops = [x for x in e.events if base_name(x) == "std::collections::VecDeque::pop_front"]
+    wrong_end = [x for x in e.events if base_name(x) in ("std::collections::VecDeque::pop_back", "std::collections::VecDeque::truncate",
+                                                         "std::collections::VecDeque::split_off", "std::collections::VecDeque::remove",
+                                                         "std::collections::VecDeque::swap_remove_back", "std::collections::VecDeque::retain")]
+    r.need(len(drs) + len(pops), 1, "removal from the front in remove (drain(0..k) or pop_front)")
+    for x in wrong_end:
+        r.ob(False, "remove-not-oldest", "remove takes chunks with %s: not the oldest ones" % base_name(x), x.loc)
     for x in drs:
         sub = x.args[1][1] if isinstance(x.args[1], tuple) and x.args[1][0] == "agg" else {}
         st_, en_ = sub.get((0,)), sub.get((1,))
@@ -121,12 +151,12 @@ def check(world, tier):
         r.ob(en_ is not None and en_[0] == "i" and k is not None and en_[1] == k[1], "remove-range-end", "remove(k) does not drain exactly k chunks", x.loc)
     a = rep.clause("C18.add", "add(x): fails without effect when full; otherwise appends exactly x")
     e = runs["add"]
-    len0 = lin.var(e.named(("len", self_root(e), (fi["elements"],)), None))
+    len0 = lin.var(e.named(("len", self_root(e), fi["elements"]), None))
     a.need(len([s for s in e.finals if ret_discr(e, s) == 0]), 1, "Ok return of add")
     a.need(len([s for s in e.finals if ret_discr(e, s) == 1]), 1, "Err return of add")
     for s in e.finals:
-        ln = e.read(s, self_root(e), (fi["elements"], "$len"))
-        sz = e.read(s, self_root(e), (fi["size"],))
+        ln = e.read(s, self_root(e), fi["elements"] + ("$len",))
+        sz = e.read(s, self_root(e), fi["size"])
         if ret_discr(e, s) == 1:
             a.ob(s.ctx.entails_eq(len0, sz[1]), "add-err-when-room", "add can fail although the window is not full", sample={"Err": "len == size"})
             a.ob(ln[0] == "i" and s.ctx.entails_eq(ln[1], len0), "add-err-has-effect", "a failing add changes the queue")
@@ -146,11 +176,15 @@ def check(world, tier):
     C02.flush_contract(world, em)
     e = runs["empty"]
     for s in e.finals:
-        ln = e.read(s, self_root(e), (fi["elements"], "$len"))
+        ln = e.read(s, self_root(e), fi["elements"] + ("$len",))
         if ret_discr(e, s) == 0:
             em.ob(ln[0] == "i" and s.ctx.entails_eq(ln[1], lin.const(0)), "empty-leaves-elements", "a successful empty leaves elements in the buffer",
                   sample={"Ok": "len' == 0"})
     return rep
+
+
+def single_sym_of(e_):
+    return e_[1][0][0] if len(e_[1]) == 1 else None
 
 
 def sticky(world, f, fi):
@@ -158,17 +192,17 @@ def sticky(world, f, fi):
     prog = world.lib
     from analyzer.engine import ICONST
     eng = world.engine()
-    flag_fields = [i for i, fl in enumerate(prog.adts[WINDOW]["variants"][0]["fields"]) if prog.types[fl["ty"]]["k"] == "bool"]
+    flag_fields = [pth for (pth, ti, nm) in world.struct_leaves(WINDOW) if prog.types[ti]["k"] == "bool"]
 
     def setup(e, st, fr):
         root = ("P", ("L", fr.id, 1), ())
-        ln = e.read(st, root, (fi["elements"], "$len"))
-        sz = e.read(st, root, (fi["size"],))
+        ln = e.read(st, root, fi["elements"] + ("$len",))
+        sz = e.read(st, root, fi["size"])
         st.ctx.add(lin.le(ln[1], sz[1]))
         # the state a previous short read leaves behind: ghost eof = 1 and whatever the method recorded
         e.write(st, ("G",), ("eof",), ICONST(1))
-        for i in flag_fields:
-            e.write(st, root, (i,), ICONST(1))
+        for pth in flag_fields:
+            e.write(st, root, tuple(pth), ICONST(1))
 
     fr, finals = eng.run(WINDOW + "::fill", setup=setup, region="fn:" + WINDOW + "::fill")
     pushes = [x for x in eng.events if base_name(x).startswith("std::collections::VecDeque::push")]
